@@ -32,6 +32,20 @@ def docx(body, docrels=(), numbering=None, comments=None, parts=None, extra=None
 
 
 LINK = [('rId9', 'hyperlink', 'http://x.y/', True)]
+
+
+def strict(data):
+    """the same package in the Strict namespaces (purl.oclc.org)"""
+    import io, zipfile
+    from gen.docgen import STRICT
+    zi = zipfile.ZipFile(io.BytesIO(data)); b = io.BytesIO()
+    with zipfile.ZipFile(b, 'w', zipfile.ZIP_DEFLATED) as zo:
+        for n in zi.namelist():
+            d = zi.read(n)
+            if n.endswith(('.xml', '.rels')):
+                for x, y in STRICT: d = d.replace(x.encode(), y.encode())
+            zo.writestr(n, d)
+    return b.getvalue()
 NUM0 = '<w:abstractNum w:abstractNumId="0"><w:lvl w:ilvl="0"><w:start w:val="0"/><w:numFmt w:val="decimal"/></w:lvl><w:lvl w:ilvl="1"><w:start w:val="0"/><w:numFmt w:val="lowerLetter"/></w:lvl></w:abstractNum><w:num w:numId="1"><w:abstractNumId w:val="0"/></w:num>'
 LISTP = lambda t, lvl=0: p(r(t), ppr=f'<w:numPr><w:ilvl w:val="{lvl}"/><w:numId w:val="1"/></w:numPr>')
 COM = lambda i, t='note': f'<w:comment w:id="{i}" w:author="A" w:date="2020-01-01T00:00:00Z"><w:p><w:r><w:t>{t}</w:t></w:r></w:p></w:comment>'
@@ -62,6 +76,9 @@ ALL = [
     ('P40-stray-runs-in-table-cells', ['C01', 'C02', 'C04', 'C05', 'C19', 'C13'], lambda: docx(p(r('«1»before')) + tbl(
         tr(tc(r('«2»stray'), p(r('«3»a')), pr='<w:gridSpan w:val="2"/>'), tc(p(r('«4»b')), r('«5»tail'), pr='<w:vMerge w:val="restart"/>')),
         tr(tc(p(r('«6»c'))), tc(r('«7»only-stray')), tc(p(r('«8»hidden')), pr='<w:vMerge/>'))) + p(r('«9»after')))),
+    # Strict conformance class: adjacent links with different targets / anchors stay apart, whatever the namespace URIs are
+    ('P41-strict-namespaces-adjacent-links', ['C10', 'C06', 'C13'], lambda: strict(docx(p(link('r:id="rId9"', r('«1»alpha')), link('r:id="rId8"', r('«2»beta')), link('r:id="rId8" w:anchor="g"', r('«3»gamma'))),
+        docrels=LINK + [('rId8', 'hyperlink', 'http://beta.example/', True)]))),
     ('P15-links-different-anchors', ['C10', 'C06'], lambda: docx(p(link('r:id="rId9" w:anchor="a"', r('«1»x')), link('r:id="rId9" w:anchor="b"', r('«2»y'))), docrels=LINK)),
     ('P16-word-word', ['C09'], lambda: docx(p(r('body')), docrels=[('rId2', 'header', 'word/h.xml')], extra={'word/word/h.xml': f'<w:hdr {NS}>' + p(r('head-in-word-word')) + '</w:hdr>'})),
     ('P18-range-end-without-start', ['C13', 'C12'], lambda: docx(p(r('a'), '<w:commentRangeEnd w:id="5"/>', r('b', '<w:b/>')))),
